@@ -1343,7 +1343,8 @@ pub fn read_memory_by_pid(pid: Pid, addr: usize, read_n: usize) -> Result<Vec<u8
     }
 
     let word_size = mem::size_of::<c_long>();
-    let end = addr + read_n;
+    // a range that wraps around the address space cannot be mapped
+    let end = addr.checked_add(read_n).ok_or(nix::Error::EFAULT)?;
     let mut word_addr = addr - addr % word_size;
     while word_addr < end {
         let value = sys::ptrace::read(pid, word_addr as *mut c_void)?;
